@@ -689,8 +689,10 @@ def instance(rng, cls, deps, tags=None):
         if rng.random() < 0.2 and not is_key:
             continue
         if p.type == 'reference':
+            # (a key cannot be a class path: keybindings do not hold one)
             v = None if rng.random() < 0.2 and not is_key else \
-                ref_value(rng, p.reference_class, tags)
+                ref_value(rng, p.reference_class, tags,
+                          class_paths=0 if is_key else 0.2)
             props.append(CIMProperty(p.name, v, type='reference',
                                      reference_class=p.reference_class))
             continue
